@@ -23,6 +23,13 @@ pub enum ProbeCase {
         sort: Sort,
         backend: u8,
         calls: Vec<Call>,
+        /// second round of an exchange: instead of building the ADF from the text, the state exported (serde JSON)
+        /// by ANOTHER feature build after its run is imported and repaired with fix_import
+        #[serde(default)]
+        import: Option<String>,
+        /// ask for the exchange (only read by the harness)
+        #[serde(default)]
+        exchange: Option<u8>,
     },
     Ops {
         prog: Program,
@@ -36,6 +43,11 @@ pub enum ProbeCase {
         /// repaired with fix_import and then runs the program again: that second run is what is reported
         #[serde(default)]
         mirror: bool,
+        /// second round of an exchange: the program runs on the store another feature build exported
+        #[serde(default)]
+        import: Option<String>,
+        #[serde(default)]
+        exchange: Option<u8>,
     },
 }
 
@@ -47,7 +59,7 @@ fn hex(t: &[u64]) -> String {
 /// build (false iff adhoccounting without adhoccountmodels).
 pub fn run(case: &ProbeCase, memo_models_valid: bool) -> Result<Value, String> {
     match case {
-        ProbeCase::Ops { prog, goal_var, hangup_after, mirror } => {
+        ProbeCase::Ops { prog, goal_var, hangup_after, mirror, import, .. } => {
             let k = prog.k as usize;
             #[cfg(feature = "frontend")]
             let (mut sh, mut listener) = match hangup_after {
@@ -88,6 +100,11 @@ pub fn run(case: &ProbeCase, memo_models_valid: bool) -> Result<Value, String> {
                     m
                 };
                 sh = Shadow::with_bdd(k, second).with_spread(prog.spread);
+            }
+            if let Some(state) = import {
+                let mut b: adf_bdd::obdd::Bdd = serde_json::from_str(state).map_err(|e| format!("state exported by another build does not load: {e}"))?;
+                b.fix_import();
+                sh = Shadow::with_bdd(k, b).with_spread(prog.spread);
             }
             let mut steps = Vec::new();
             for (i, op) in prog.ops.iter().enumerate() {
@@ -151,9 +168,10 @@ pub fn run(case: &ProbeCase, memo_models_valid: bool) -> Result<Value, String> {
             }
             #[cfg(feature = "frontend")]
             drop(listener);
-            Ok(json!({"steps": steps, "handles": per_handle, "nodes": sh.bdd.nodes.len()}))
+            let export = serde_json::to_string(&sh.bdd).map_err(|e| e.to_string())?;
+            Ok(json!({"steps": steps, "handles": per_handle, "nodes": sh.bdd.nodes.len(), "export": export}))
         }
-        ProbeCase::Adf { acs, labels, layout, sort, backend, calls: list } => {
+        ProbeCase::Adf { acs, labels, layout, sort, backend, calls: list, import, .. } => {
             let (text, _) = gen::render(acs, labels, layout);
             let r = sut::with_parser(&text, *sort, |p| -> Result<Value, String> {
                 let names: Vec<String> = p.var_container().names().read().unwrap().clone();
@@ -164,6 +182,11 @@ pub fn run(case: &ProbeCase, memo_models_valid: bool) -> Result<Value, String> {
                     2 => BdAdf::from_parser(p).hybrid_step_opt(false),
                     _ => Adf::from_biodivine(&BdAdf::from_parser(p)),
                 };
+                if let Some(state) = import {
+                    let mut b: Adf = serde_json::from_str(state).map_err(|e| format!("state exported by another build does not load: {e}"))?;
+                    b.fix_import();
+                    a = b;
+                }
                 let mut out = Vec::new();
                 for (i, call) in list.iter().enumerate() {
                     let raw = calls::exec(&mut a, call).map_err(|e| format!("call {i} {call:?}: {e}"))?;
@@ -185,7 +208,8 @@ pub fn run(case: &ProbeCase, memo_models_valid: bool) -> Result<Value, String> {
                         Abs::Tables(t) => json!(t.iter().map(|t| hex(t)).collect::<Vec<_>>()),
                     });
                 }
-                Ok(json!({"answers": out, "names": names}))
+                let export = serde_json::to_string(&a).map_err(|e| e.to_string())?;
+                Ok(json!({"answers": out, "names": names, "export": export}))
             });
             match r {
                 Err(e) => Err(format!("well-formed input rejected: {e}")),
